@@ -708,7 +708,7 @@ def save_only_completed(ctx):
         ctx.check(bb in Rc, f"{short(R.name)}/Completed", [site(R, bb)], "IncrementalRunResult::Completed is produced outside the Completed arm of the build report")
 
 
-@rule("C05.COMPLETED-ONLY-SUCCESS", ["C05", "C07"], """BuildTerminationReport::Completed is constructed only after the exit status was obtained and `success()` is true; a
+@rule("C05.COMPLETED-ONLY-SUCCESS", ["C05", "C07", "C02"], """BuildTerminationReport::Completed is constructed only after the exit status was obtained and `success()` is true; a
       non-zero status returns Err; Cancelled only in the cancellation arm""", "K1", floor=3)
 def completed_only_success(ctx):
     srs = ctx.r.script_runners()
